@@ -164,7 +164,7 @@ PROPS = {
         claim="PARTIAL: Fq::sgn0 = parity of the canonical integer (limb-0 bit, proved with the limb-value lemma); Fq2::sgn0 = sgn0 of the first non-zero "
               "coefficient, real part first; Sgn0Result xor and negate_if exact; Ord / PartialOrd for Fq2 = lexicographic order with the u-coefficient most "
               "significant; Fq2::legendre = Legendre symbol of the norm; Fq2::sqrt (Algorithm 9, real body): the two exponent literals equal (q-3)/4 and (q-1)/2, sqrt(0) = 0, None only for non-zero input, "
-              "and every returned x satisfies x^2 = e(a) * a with e(a) = 1 if alpha = -1 and e(a) = b^2 * alpha otherwise (alpha = a^((q-1)/2), b = (1 + alpha)^((q-1)/2)) - pure ring algebra over the pow contract; "
+              "and every returned x satisfies x^2 = e(a) * a with e(a) = 1 if alpha = -1 and e(a) = b^2 * alpha otherwise (alpha = a^((q-1)/2), b = (1 + alpha)^((q-1)/2)) - pure ring algebra over the proved contract of pow; "
               "negation flips parity and order of every non-zero y (proved from q odd); get_point_from_x returns a point on the curve with the given x "
               "whose y is the larger root iff the flag is set, or None when x^3+b has no root. "
               "Derive-generated code (unit mont, real bodies): Fq / Fr cmp = order of the canonical integers; Fq / Fr legendre = classification of x^((q-1)/2) into 0 / 1 / other; "
@@ -174,7 +174,8 @@ PROPS = {
                      "that e(a) = 1 whenever Algorithm 9 returns Some, and that it returns None only for non-squares (A8': Frobenius is additive and a^((q^2-1)/2) = +-1) - number theory, not proved; the stand-in fq2_sqrt_order exercises it"],
         assumptions=[A['A8'], "A8' correctness of Adj/Rodriguez-Henriquez Algorithm 9", A['D_FQ'], "(-y)^2 = y^2 in Fq2 stated as a ring fact (lemma_neg_sq2)",
                      "the ring laws of the schoolbook Fq2 product used by the sqrt proof (commutative, associative, 1 and -1 act as expected, u^2 = -1) are proved in unit order from the definitions; "
-                     "the laws of powers (x^a x^b = x^(a+b), x^1 = x) are axioms there, as is NEGATIVE_ONE = -1 (checked as a closed term in unit consts)", A['TOOLS']],
+                     "the laws of powers (x^a x^b = x^(a+b), x^1 = x) are proved there for f2pow defined by recursion, and Field::pow (text of the pinned ff-zeroize source, written out at Fq2) is proved to return f2pow(x, e) for every six-limb exponent; "
+                     "NEGATIVE_ONE = -1 is an axiom there (checked as a closed term in unit consts)", A['TOOLS']],
     ),
     'C15': dict(
         units_quick=['sswu', 'sswuhelp', 'order', 'consts'], units_thorough=['sswu', 'sswuhelp', 'order', 'consts', 'tower'], timeout=1800,
